@@ -181,6 +181,11 @@ func (env *Env) eval(e ast.Expr) *Val {
 				env.fail(e, "arithmetic on non-scalars")
 			}
 			return &Val{C: constant.BinaryOp(l.C, x.Op, r.C)}
+		case token.QUO:
+			if l.C == nil || r.C == nil || l.C.Kind() != constant.Int || r.C.Kind() != constant.Int || constant.Sign(r.C) == 0 {
+				env.fail(e, "division")
+			}
+			return &Val{C: constant.BinaryOp(l.C, token.QUO_ASSIGN, r.C)}
 		}
 	case *ast.CallExpr:
 		return env.evalCall(x)
